@@ -15,16 +15,17 @@ def meta(name, mode, meta_sz, img, rd, tiers, timeout):
               "metadata block size %d, final read <= %d bytes, arbitrary deterministic decompressor" % (hist, img, meta_sz, rd))
 OBLIGATIONS += [
     meta("meta_hist3_m3_img12_rd1", 3, 3, 12, 1, ["quick", "thorough"], 400),
+    meta("meta_hist2_m3_img12_rd2", 2, 3, 12, 2, ["quick", "thorough"], 600),
     meta("meta_hist2_m4_img16_rd3", 2, 4, 16, 3, ["thorough"], 900),
     meta("meta_hist3_m4_img16_rd1", 3, 4, 16, 1, ["thorough"], 900),
 ]
 
-def data(name, mode, nw, img, rd, nfrag, bs, tiers, timeout):
+def data(name, mode, nw, img, rd, nfrag, bs, tiers, timeout, hist3=False):
     what = {5: "one arbitrary operation (read or get_fragment on inode X, may fail) then read(Y,off,n) on the used reader == read(Y,off,n) on a fresh reader",
             6: "positional read of the whole file == concatenation of the stream chunks (two readers, same inode)"}[mode]
     return dict(name=name, harness="harness/C05_data.c", sources=["lib/sqfs/src/inode.c", "lib/util/src/alloc.c"],
         included_sources=["lib/sqfs/src/data_reader.c"],
-        defines=dict(MODE=mode, BS=bs, NW=nw, NFRAG=nfrag, VP_IMG=img, VP_MAXIO=bs, VP_CMP_MAXOUT=bs, RD=rd), unwind=max(8, rd + 2),
+        defines=dict(dict(MODE=mode, BS=bs, NW=nw, NFRAG=nfrag, VP_IMG=img, VP_MAXIO=bs, VP_CMP_MAXOUT=bs, RD=rd), **({"HIST3": 1} if hist3 else {})), unwind=max(8, rd + 2),
         unwindset={"vp_cmp_init.0": 5, "vp_cmp_init.1": 5, "vp_img_symbolic.0": img + 1},
         tiers=tiers, timeout=timeout, fp_map=FP, reach=["both_ok"] if mode == 5 else ["both_complete"],
         functions=["sqfs_data_reader_read, sqfs_data_reader_get_fragment, precache_data_block, precache_fragment_block, get_block, "
@@ -34,6 +35,8 @@ def data(name, mode, nw, img, rd, nfrag, bs, tiers, timeout):
 OBLIGATIONS += [
     data("data_hist2_w0", 5, 0, 8, 3, 1, 4, ["quick", "thorough"], 300),
     data("data_hist2_w1_bs2", 5, 1, 6, 2, 1, 2, ["quick", "thorough"], 300),
+    data("data_hist3_w0", 5, 0, 8, 3, 1, 4, ["quick", "thorough"], 600, True),
+    data("data_hist3_w1_bs2", 5, 1, 6, 2, 1, 2, ["thorough"], 1800, True),
     data("data_hist2_w2_bs2", 5, 2, 8, 4, 1, 2, ["thorough"], 900),
     data("data_hist2_w1_bs4", 5, 1, 8, 3, 1, 4, ["thorough"], 900),
     data("data_hist2_w1_bs4_img12", 5, 1, 12, 6, 2, 4, ["thorough"], 1800),
@@ -48,7 +51,7 @@ ASSUMPTIONS = [
     "file stub / compressor stub / static object layout as in C05",
 ]
 OUTSIDE = [
-    "histories longer than 3 operations (the caches hold one block; length 3 reaches 'loaded, then failed load, then hit')",
+    "histories longer than 3 operations (data reader: 3 with the repeated final query) (the caches hold one block; length 3 reaches 'loaded, then failed load, then hit')",
     "dir reader / xattr reader / id and fragment table lookups (argued in DESIGN.md: state lives in the caller's cursor or is read-only)",
     "lz4 decompressor internals",
 ]
